@@ -359,6 +359,7 @@ def units(tier):
     _wrap(us, "C12.step_drivers.clock_advances_by_the_step_integrated", TM.unit_step_clock)
     _wrap(us, "C12.kinetics.reacted_moles_capped_at_amount_present", TM.unit_reactant_nonnegative)
     _wrap(us, "C12.reactions.step_driver", TM.unit_reactions_driver)
+    _wrap(us, "C12.run_reactions.reaction_and_mix_applied_once_before_the_stiff_integration", TM.unit_reaction_added_once)
     from props import c12_nvector as NVX
     us += NVX.units(tier)
     _wrap(us, "C12.nvector.arithmetic_kernels_elementwise_and_in_lockstep", NVX.unit_arith_kernels)
